@@ -17,6 +17,7 @@ import (
 	"path/filepath"
 	"reflect"
 	"regexp"
+	"runtime/debug"
 	"sort"
 	"strconv"
 	"strings"
@@ -225,6 +226,9 @@ func newReplica(ptper int) *Replica {
 func (r *Replica) apply(idx int, data []byte) (res int) {
 	defer func() {
 		if e := recover(); e != nil {
+			if os.Getenv("VERIF_PANIC") != "" { // debugging aid: where did the state machine panic
+				fmt.Fprintf(os.Stderr, "panic at index %d: %v\n%s\n", idx, e, debug.Stack())
+			}
 			res = 2
 		}
 	}()
@@ -283,6 +287,7 @@ type Case struct {
 	Log     []string     `json:"log"` // base64 of the marshalled commands
 	SnapAt  int          `json:"snap_at"`
 	Delay   int          `json:"delay"`
+	PanicAt int          `json:"panic_at"` // -1, or the step at which replica A's state machine panicked (the case ends there: the process is gone)
 	Batch   []int        `json:"batch,omitempty"` // sizes of the runs of entries replica B receives through storeFSM.ApplyBatch (cyclic)
 	Res     []int        `json:"res"`
 	Div     []Divergence `json:"div"`
@@ -323,6 +328,7 @@ func runCase(cs *Case) {
 		logs = append(logs, b)
 	}
 	cs.Res = nil
+	cs.PanicAt = -1
 	cs.Div = []Divergence{}
 	seen := map[string]bool{}
 	report := func(step int, pair string, paths []string) {
@@ -348,6 +354,18 @@ func runCase(cs *Case) {
 		ra := A.apply(i, b)
 		rd := D.apply(i, b)
 		cs.Res = append(cs.Res, ra)
+		if ra == 2 || rd == 2 {
+			// a panic inside Apply takes the meta process down on every node that applies the entry; all that is left to compare is
+			// that the other replicas panic too
+			if ra != rd {
+				report(i, "A-D", []string{"result:" + cs.Cmds[i].K})
+			}
+			if rr := R.apply(i, b); rr != ra {
+				report(i, "A-R", []string{"result:" + cs.Cmds[i].K})
+			}
+			cs.PanicAt = i
+			break
+		}
 		da := dumpData(A.fsm.Data())
 		if ra != rd {
 			report(i, "A-D", []string{"result:" + cs.Cmds[i].K})
@@ -1008,6 +1026,11 @@ func corpus() []*Case {
 			{K: "cuser", S1: "u1", S2: "h"},
 			{K: "uptinfo", DB: 1, Pt: 0, COwner: 1, CStat: 3, Owner: 1, Status: 1}, {K: "ptver", DB: 1, Pt: 1},
 			{K: "cuser", S1: "u2", S2: "h"},
+		}),
+		// az-hard replica distribution: a node is removed while it owns partitions of a replicated database, then stores join
+		scriptedC("node-join-after-remove-node-az-hard", Conf{AzHard: true}, 1, 1, 0, []Cmd{
+			{K: "cnode", H: 1, T: 1}, {K: "cdb", DB: 2, HasRP: true, RP: 1, D: i64(0), SGD: i64(0), U1: 2}, {K: "cptv", DB: 2, U1: 2},
+			{K: "rmnode", ID: 1}, {K: "cnode", H: 3, T: 3}, {K: "cnode", H: 5, T: 5}, {K: "cuser", S1: "u1", S2: "h"},
 		}),
 		// a last run reported at instant 0 and a never-run query, through a snapshot: both must come back as they were
 		scripted("cq-reported-at-epoch", 1, 5, 0, []Cmd{
